@@ -198,21 +198,87 @@ fn record(case: &Case, report: &mut Report) {
     }
 }
 
+/// a world (any rules, also raw fixture rules) and a request: permuting the matched routes, and building the
+/// router in another insertion order, must give the same serialised action
+pub fn check_world(world: &World, request: &ReqSpec, perm_seed: u64) -> Result<usize, String> {
+    let config = world.cfg.build();
+    let q = request.build(&config);
+    let router = world.router();
+    let matched = router.match_request(&q);
+    let base = ser(&Action::from_routes_rule(matched.clone(), &q, None));
+    let mut rng = Rng::new(perm_seed);
+    for _ in 0..4 {
+        let mut p = matched.clone();
+        rng.shuffle(&mut p);
+        let a = ser(&Action::from_routes_rule(p, &q, None));
+        if a != base {
+            return Err(format!("a permutation of the {} matched rules changes the serialised action:\n  {base}\n  {a}", matched.len()));
+        }
+    }
+    for _ in 0..2 {
+        let mut shuffled = world.clone();
+        rng.shuffle(&mut shuffled.rules);
+        let other = shuffled.router();
+        let a = ser(&Action::from_routes_rule(other.match_request(&q), &q, None));
+        if a != base {
+            return Err(format!("inserting the same rules in another order changes the serialised action:\n  {base}\n  {a}"));
+        }
+    }
+    Ok(matched.len())
+}
+
+#[derive(Clone, Debug, Serialize, Deserialize)]
+pub struct WorldCase {
+    pub world: World,
+    pub request: ReqSpec,
+    pub perm_seed: u64,
+}
+
 pub fn run(ctx: &Ctx, _args: &Args) -> i32 {
     let started = Instant::now();
     let jobs = ctx.jobs;
     let n: u64 = ctx.tier.pick(40_000, 1_000_000);
+    let fixtures = crate::fixtures::load();
+    let fixture_requests: Vec<ReqSpec> = fixtures.iter().flat_map(|f| f.requests.iter().cloned()).collect();
     let report = run_sharded(jobs, |shard, report| {
         let mut rng = Rng::stream(ctx.seed, shard as u64);
         for _ in 0..(n / jobs as u64) {
             let case = random_case(&mut rng);
             record(&case, report);
         }
+        // the repository's fixture rule sets: realistic effects (markers, variables, filters) under permutation
+        for (i, fx) in fixtures.iter().enumerate() {
+            if i % jobs != shard {
+                continue;
+            }
+            let mut probes = fx.requests.clone();
+            for _ in 0..6 {
+                probes.push(rng.pick(&fixture_requests).clone());
+            }
+            for q in probes {
+                report.eval();
+                let case = WorldCase {
+                    world: fx.world.clone(),
+                    request: q,
+                    perm_seed: rng.next_u64(),
+                };
+                match guarded(|| check_world(&case.world, &case.request, case.perm_seed)) {
+                    Err(p) => report.library_panic(&p),
+                    Ok(Err(m)) => report.violation("order-dependent", m, json!({"world_case": case})),
+                    Ok(Ok(k)) => {
+                        report.count("fixture_pairs_checked");
+                        if k >= 2 {
+                            report.count("fixture_pairs_with_2_or_more_matched_rules");
+                        }
+                    }
+                }
+            }
+        }
     });
     finish(
         ctx,
         report,
-        "rule sets of 2-48 rules all matching one request, few distinct ranks (many ties), ids from a pool with case variants / prefixes / digits / non-ASCII, conflicting effects (status codes, override of one shared header, reset/stop at tied ranks), sampling disabled; compared: all k! permutations of the matched list (k<=6) or 61 random ones, routers built with permuted insertion orders / remove+re-insert / two change-sets with cache in between (each HashMap has its own RandomState), and the order of the contributing rules against (rank desc, id desc). non-trivial = distinct rule set with at least two rules sharing a rank",
+        "the repository's fixture rule sets with their requests (permuted matched lists, shuffled insertion order), and rule sets of 2-48 rules all matching one request, few distinct ranks (many ties), ids from a pool with case variants / prefixes / digits / non-ASCII, conflicting effects (status codes, override of one shared header, reset/stop at tied ranks), sampling disabled; compared: all k! permutations of the matched list (k<=6) or 61 random ones, routers built with permuted insertion orders / remove+re-insert / two change-sets with cache in between (each HashMap has its own RandomState), and the order of the contributing rules against (rank desc, id desc). non-trivial = distinct rule set with at least two rules sharing a rank",
         &["serde_json serialisation as the observable", "the C05 reference order"],
         started,
         200,
@@ -221,6 +287,17 @@ pub fn run(ctx: &Ctx, _args: &Args) -> i32 {
 }
 
 pub fn replay(_ctx: &Ctx, case: &Value) -> i32 {
+    if let Some(wc) = case.get("world_case") {
+        let failures = match serde_json::from_value::<WorldCase>(wc.clone()) {
+            Err(e) => vec![format!("bad case: {e}")],
+            Ok(c) => match guarded(|| check_world(&c.world, &c.request, c.perm_seed)) {
+                Err(p) => vec![format!("panic: {p}")],
+                Ok(Err(m)) => vec![m],
+                Ok(Ok(_)) => vec![],
+            },
+        };
+        return super::replay_verdict("C11", failures);
+    }
     let case: Case = match serde_json::from_value(case.clone()) {
         Ok(c) => c,
         Err(e) => {
